@@ -72,7 +72,7 @@ def gen(rng, tier, quarantine=()):
         if kind == "rewrite":
             need_tool = True
         recs.append({"op": "mk", "id": f"o{i}", "kind": kind, "sels": [sel], "how": how,
-                     "nojudge": True})
+                     "nojudge": True, "filtered": rng.random() < 0.5})
     for i in range(nplain):
         v = focus if rng.random() < 0.7 and not refusal else rng.choice(names)
         ctx = [n for n in names if n != v and n not in fnir.get("mutable", ()) and rng.random() < 0.3][:1]
